@@ -43,6 +43,7 @@ from ngo.utils.ast import (
     Predicate,
     TranslationMap,
     collect_ast,
+    collect_binding_information_body,
     global_vars_inside_body,
     is_predicate,
     loc2str,
@@ -423,6 +424,25 @@ class MinMaxAggregator:
                 lits_with_vars.append(blit)
             else:
                 lits_without_vars.append(blit)
+        # the literals that move into the chain rules have to be safe without the rest of the body
+        while True:
+            unbound = collect_binding_information_body(list(chain(elem.condition, lits_with_vars)))[1]
+            binders = [blit for blit in lits_without_vars if not unbound.isdisjoint(collect_ast(blit, "Variable"))]
+            if not unbound or not binders:
+                break
+            for blit in binders:
+                if blit.ast_type == ASTType.Literal and blit.atom.ast_type in (
+                    ASTType.BodyAggregate,
+                    ASTType.Aggregate,
+                ):
+                    rest_vars.update(global_vars_inside_body([blit]))
+                else:
+                    rest_vars.update(collect_ast(blit, "Variable"))
+                lits_with_vars.append(blit)
+                lits_without_vars.remove(blit)
+        if unbound:
+            log.info(f"Cannot translate {loc2str(agg.location)} as {[str(x) for x in unbound]} would be unsafe.")
+            return [rule]
         if rule.ast_type == ASTType.Minimize:
             rest_vars.update(inside_variables.intersection(collect_ast(rule.weight, "Variable")))
             rest_vars.update(inside_variables.intersection(collect_ast(rule.priority, "Variable")))
